@@ -594,3 +594,68 @@ example : Model.Mvp60.RegOnly Proofs.Mvp60SlWitness.loopApp = true ∧
   ⟨Proofs.Mvp60SlWitness.loop_class.1, Proofs.Mvp60SlWitness.loop_p2.trans Proofs.Mvp60SlWitness.loop_seq.symm⟩
 
 end Props.C01
+
+/-! ## MVP-6.0 (package R60b, step 1): straight-line programs that may `ret` -/
+namespace Props.C01
+
+/-- **C01 for MVP-6.0 on straight-line register-only programs with `ret` (safety), every number `K` of execute and write
+units.**  Every parsed program without load/store, branch and jump (`ret` allowed anywhere: the run ends at the first one),
+every initial state related to a specification machine, every fuel and every tick budget: if the run of the MVP-6.0 model ends
+(`ret`, past the last instruction, or an error value) and the specification run ends within its fuel, they end the same way,
+and after `ret` / past the end the final registers and memory of the model are the specification's.  The new ingredients
+over `mvp60_straightline_correct`: the control unit issues a `ret` only onto an empty execute bus and nothing behind it in
+that cycle, so the `ret` is ALONE in the execute-bus queue in the tick in which unit 0 takes it — nothing younger is
+executed, although the decode unit has decoded and the control unit may have issued younger instructions; then the drain
+after the `ret` (`retB`) writes back what is left on the write bus. -/
+theorem mvp60_straightline_ret_correct (app : App) (hw : WfApp app) (hsl : Model.Mvp60.StraightLineRet app = true)
+    (ctx : Model.Context) (m : Spec.Machine) (hR : Rel ctx m) (hpw : ∀ r, GoMap.get1 ctx.PendingWriteRegisters r = 0)
+    (K fuel ticks : Nat) (hk : Halt)
+    (hh : (Model.Mvp60.run app ctx K K ticks).halt = some hk) (hnp : ∀ w, hk ≠ .panic w) :
+    Agree4 (Spec.run (specProg app) m fuel) hk (Model.Mvp60.run app ctx K K ticks).final.ctx := by
+  have h1 := mvp1_correct app hw ctx m hR fuel
+  unfold Agree at h1
+  unfold Agree4
+  obtain ⟨n, e1, e2⟩ := Proofs.Mvp60Sl.mvp60_slr_refines_mvp1 app ⟨hw.small, hw.nofwd, hsl⟩ ctx ⟨hR.rat, hR.tx, hpw⟩ K ticks hk hh hnp
+  cases hstop : (Spec.run (specProg app) m fuel).stop with
+  | notWf w => trivial
+  | ret =>
+    rw [hstop] at h1
+    simp only at h1 ⊢
+    obtain ⟨u1, u2⟩ := Proofs.Mvp4.run_halt_unique mvp1Fetch mvp1Fetch app ⟨ctx, 0#32⟩ n fuel hk .ret e1 h1.1
+    subst u1
+    obtain ⟨f1, f2⟩ := e2 (by intro hc; cases hc)
+    have hfin : (runMvp1 app ⟨ctx, 0#32⟩ n).final = (runMvp1 app ⟨ctx, 0#32⟩ fuel).final := u2
+    refine ⟨rfl, fun r => ?_, ?_⟩
+    · rw [f1, hfin]; exact h1.2.1.regs r
+    · rw [f2, hfin]; exact h1.2.1.mem
+  | offEnd =>
+    rw [hstop] at h1
+    simp only at h1 ⊢
+    obtain ⟨u1, u2⟩ := Proofs.Mvp4.run_halt_unique mvp1Fetch mvp1Fetch app ⟨ctx, 0#32⟩ n fuel hk .offEnd e1 h1.1
+    subst u1
+    obtain ⟨f1, f2⟩ := e2 (by intro hc; cases hc)
+    have hfin : (runMvp1 app ⟨ctx, 0#32⟩ n).final = (runMvp1 app ⟨ctx, 0#32⟩ fuel).final := u2
+    refine ⟨rfl, fun r => ?_, ?_⟩
+    · rw [f1, hfin]; exact h1.2.1.regs r
+    · rw [f2, hfin]; exact h1.2.1.mem
+  | error er =>
+    rw [hstop] at h1
+    simp only at h1 ⊢
+    exact (Proofs.Mvp4.run_halt_unique mvp1Fetch mvp1Fetch app ⟨ctx, 0#32⟩ n fuel hk .err e1 h1.1).1
+
+/-- Non-vacuity: a member of the class that is not in `StraightLine` (a `ret` in the middle, `Proofs.Mvp60SlWitness.slrApp`);
+the model with two and with four units ends with `ret` and exactly the registers of MVP-1 (`t0 = 7`, `t1 = 8`, `t2 = 56`:
+the `add` and `div` behind the `ret` have not been executed) -/
+example : Model.Mvp60.StraightLineRet Proofs.Mvp60SlWitness.slrApp = true ∧
+    Proofs.Mvp60SlWitness.obsR (Model.Mvp60.run Proofs.Mvp60SlWitness.slrApp Proofs.Mvp60SlWitness.ctx0 2 2 2000).halt
+        (Model.Mvp60.run Proofs.Mvp60SlWitness.slrApp Proofs.Mvp60SlWitness.ctx0 2 2 2000).final.ctx =
+      Proofs.Mvp60SlWitness.obsR (runMvp1 Proofs.Mvp60SlWitness.slrApp ⟨Proofs.Mvp60SlWitness.ctx0, 0⟩ 20).halt
+        (runMvp1 Proofs.Mvp60SlWitness.slrApp ⟨Proofs.Mvp60SlWitness.ctx0, 0⟩ 20).final.ctx ∧
+    Proofs.Mvp60SlWitness.obsR (Model.Mvp60.run Proofs.Mvp60SlWitness.slrApp Proofs.Mvp60SlWitness.ctx0 4 4 2000).halt
+        (Model.Mvp60.run Proofs.Mvp60SlWitness.slrApp Proofs.Mvp60SlWitness.ctx0 4 4 2000).final.ctx =
+      Proofs.Mvp60SlWitness.obsR (runMvp1 Proofs.Mvp60SlWitness.slrApp ⟨Proofs.Mvp60SlWitness.ctx0, 0⟩ 20).halt
+        (runMvp1 Proofs.Mvp60SlWitness.slrApp ⟨Proofs.Mvp60SlWitness.ctx0, 0⟩ 20).final.ctx :=
+  ⟨Proofs.Mvp60SlWitness.slr_class.1, Proofs.Mvp60SlWitness.slr_p2.trans Proofs.Mvp60SlWitness.slr_seq.symm,
+   Proofs.Mvp60SlWitness.slr_p4.trans Proofs.Mvp60SlWitness.slr_seq.symm⟩
+
+end Props.C01
